@@ -432,6 +432,33 @@ fn dag_prog<F: Backend>(cx: &mut Cx, p: &Prog, boxes: &[Vec<(f32, f32)>]) {
                 _ => out[out_of[n]],
             }
         };
+        // the local obligation below takes an op's operand intervals from the
+        // evaluator's own outputs; for INPUT nodes that premise is known
+        // independently: an exported input must carry exactly the box it was given
+        // (an op that clobbers its argument register would otherwise excuse itself
+        // by turning the operand into a NaN interval)
+        let mut clobbered = false;
+        for (j, op) in flat.ops.iter().enumerate() {
+            if let FOp::Input(vi) = op {
+                if out_of[j] == usize::MAX {
+                    continue;
+                }
+                let (lo, hi) = bx.get(*vi).copied().unwrap_or((0.25, 0.75));
+                let got = out[out_of[j]];
+                if !(got.lower().to_bits() == lo.to_bits() && got.upper().to_bits() == hi.to_bits()) && !(got.lower() == lo && got.upper() == hi) {
+                    cx.violation(
+                        format!("{}-interval: an exported input does not carry the interval it was given", F::NAME),
+                        desc(),
+                        format!("box {bx:?}: input {vi} was [{lo:?}, {hi:?}], its exported value is [{:?}, {:?}] (an operation overwrote its argument)", got.lower(), got.upper()),
+                    );
+                    clobbered = true;
+                    break;
+                }
+            }
+        }
+        if clobbered {
+            continue;
+        }
         // corners, edge midpoints, centre
         let mut pts: Vec<Vec<f32>> = vec![vec![]];
         for d in 0..nv {
